@@ -2,6 +2,7 @@ package main
 
 import (
 	"fmt"
+	"go/constant"
 	"go/token"
 	"go/types"
 	"sort"
@@ -90,6 +91,33 @@ func affineBound(v ssa.Value, depth int) (lo, hi int64, ok bool) {
 			first = false
 		}
 		return lo, hi, true
+	case *ssa.Call:
+		// n := copy(dst, src) is at most the shorter of the two lengths
+		if bn, ok := x.Common().Value.(*ssa.Builtin); ok && bn.Name() == "copy" && len(x.Common().Args) == 2 {
+			best := int64(-1)
+			for _, a := range x.Common().Args {
+				var n int64 = -1
+				switch y := a.(type) {
+				case *ssa.Const:
+					if y.Value != nil && y.Value.Kind() == constant.String {
+						n = int64(len(constant.StringVal(y.Value)))
+					}
+				case *ssa.Slice:
+					if pt, ok := y.X.Type().Underlying().(*types.Pointer); ok {
+						if at, ok := pt.Elem().Underlying().(*types.Array); ok {
+							n = at.Len()
+						}
+					}
+				}
+				if n >= 0 && (best < 0 || n < best) {
+					best = n
+				}
+			}
+			if best >= 0 {
+				return 0, best, true
+			}
+		}
+		return 0, 0, false
 	case *ssa.Phi:
 		if l, h, ok := phiCounterBound(x); ok {
 			return l, h, true
